@@ -646,6 +646,19 @@ impl BoundsAnalyzer {
     }
 }
 
+#[cfg(feature = "verif_hooks")]
+impl BoundsAnalyzer {
+    pub(crate) fn verif_variable_bounds(&self) -> &IndexMap<String, Bounds> {
+        &self.variable_bounds
+    }
+    pub(crate) fn verif_reached_iteration_limit(&self) -> bool {
+        self.reached_iteration_limit
+    }
+    pub(crate) fn verif_detected_infeasible(&self) -> bool {
+        self.detected_infeasible
+    }
+}
+
 fn required_bounds(comparison: crate::math::Comparison) -> Bounds {
     match comparison {
         crate::math::Comparison::LessOrEqual | crate::math::Comparison::Less => {
